@@ -56,7 +56,8 @@ inductive Pc where
   | hookClose (p : Pid) (e : Eid) (k : Kont)             -- exit hook: about to close the endpoint
   | closeWant (q : Port)
   | closeHold (q : Port)
-  | closeAll (es : List Eid)                     -- port `Close`: unlocked, about to close what it took
+  | closeAll (es : List Eid)                     -- port `Close`: unlocked, closing what it took, one endpoint per step
+  | openHoldE (q : Port) (p : Pid) (e : Eid)     -- only in the variant `stepEarly`: holds the lock with an endpoint allocated before it
   | exitFlip (p : Pid)
   | exitRun (p : Pid) (hs : List (Port × Eid))
   deriving DecidableEq, Repr
@@ -68,12 +69,13 @@ structure State where
   nep : Nat
   eproc : Eid → Pid
   closed : Eid → Bool
+  pumps : Nat                  -- running pump goroutines: +1 in `NewReader` / `NewWriter`, -1 when a not yet closed endpoint is closed
   term : Pid → Bool
   hooks : Pid → List (Port × Eid)
 
 def init : State :=
   { thr := fun _ => .idle, pmu := fun _ => none, ents := fun _ _ => none, nep := 0,
-    eproc := fun _ => 0, closed := fun _ => false, term := fun _ => false, hooks := fun _ => [] }
+    eproc := fun _ => 0, closed := fun _ => false, pumps := 0, term := fun _ => false, hooks := fun _ => [] }
 
 inductive Ev where
   | tau
@@ -101,6 +103,10 @@ def Kont.next (p : Pid) (e : Eid) : Kont → Pc × Ev
 def taken (s : State) (q : Port) : List Eid :=
   (List.range s.nep).filter (fun e => s.ents q (s.eproc e) = some e)
 
+/-- `Close()` of endpoint `e`: `if done { return }; …; close(in)` – the pump goroutine of an endpoint
+that was not closed before ends. -/
+def closePump (s : State) (e : Eid) : Nat := if s.closed e then s.pumps else s.pumps - 1
+
 def step (s : State) (t : Tid) : Option (State × Ev) :=
   match s.thr t with
   | .idle => none
@@ -121,7 +127,7 @@ def step (s : State) (t : Tid) : Option (State × Ev) :=
     | some e => some ({ s with pmu := upd s.pmu q none, thr := upd s.thr t .idle }, .ep e)
     | none =>
       some ({ s with ents := upd s.ents q (upd (s.ents q) p (some s.nep)), nep := s.nep + 1,
-                     eproc := upd s.eproc s.nep p, closed := upd s.closed s.nep false,
+                     eproc := upd s.eproc s.nep p, closed := upd s.closed s.nep false, pumps := s.pumps + 1,
                      pmu := upd s.pmu q none, thr := upd s.thr t (.openGap q p s.nep) }, .tau)
   | .openGap q p e =>
     if s.term p then some ({ s with thr := upd s.thr t (.hookWant q p e .ret) }, .tau)
@@ -133,21 +139,43 @@ def step (s : State) (t : Tid) : Option (State × Ev) :=
     some ({ s with ents := upd s.ents q (upd (s.ents q) p none), pmu := upd s.pmu q none,
                    thr := upd s.thr t (.hookClose p e k) }, .tau)
   | .hookClose p e k =>
-    some ({ s with closed := upd s.closed e true, thr := upd s.thr t (k.next p e).1 }, (k.next p e).2)
+    some ({ s with closed := upd s.closed e true, pumps := closePump s e,
+                   thr := upd s.thr t (k.next p e).1 }, (k.next p e).2)
   | .closeWant q =>
     if s.pmu q = none then some ({ s with pmu := upd s.pmu q (some t), thr := upd s.thr t (.closeHold q) }, .tau)
     else none
   | .closeHold q =>
     some ({ s with ents := upd s.ents q (fun _ => none), pmu := upd s.pmu q none,
                    thr := upd s.thr t (.closeAll (taken s q)) }, .tau)
-  | .closeAll es =>
-    some ({ s with closed := fun e => s.closed e || es.contains e, thr := upd s.thr t .idle }, .unit)
+  | .closeAll [] => some ({ s with thr := upd s.thr t .idle }, .unit)
+  | .closeAll (e :: es) =>
+    some ({ s with closed := upd s.closed e true, pumps := closePump s e, thr := upd s.thr t (.closeAll es) }, .tau)
+  | .openHoldE _ _ _ => none   -- not a program point of the real code (see `stepEarly`)
   | .exitFlip p =>
     if s.term p then some ({ s with thr := upd s.thr t (.exitRun p []) }, .tau)
     else some ({ s with term := upd s.term p true, hooks := upd s.hooks p [],
                         thr := upd s.thr t (.exitRun p (s.hooks p)) }, .tau)
   | .exitRun _ [] => some ({ s with thr := upd s.thr t .idle }, .unit)
   | .exitRun p ((q, e) :: rest) => some ({ s with thr := upd s.thr t (.hookWant q p e (.exit rest)) }, .tau)
+
+/-- The variant of seeded change c05b: `Open` allocates the endpoint (`NewReader()` starts its pump)
+BEFORE taking the write lock; an opener that then finds an entry under the lock returns that entry
+and drops its own fresh endpoint without `Close()`. Everything else is `step`. -/
+def stepEarly (s : State) (t : Tid) : Option (State × Ev) :=
+  match s.thr t with
+  | .openWant q p =>
+    if s.pmu q = none then
+      some ({ s with nep := s.nep + 1, eproc := upd s.eproc s.nep p, closed := upd s.closed s.nep false,
+                     pumps := s.pumps + 1, pmu := upd s.pmu q (some t),
+                     thr := upd s.thr t (.openHoldE q p s.nep) }, .tau)
+    else none
+  | .openHoldE q p e =>
+    match s.ents q p with
+    | some e0 => some ({ s with pmu := upd s.pmu q none, thr := upd s.thr t .idle }, .ep e0)   -- `e` is dropped
+    | none =>
+      some ({ s with ents := upd s.ents q (upd (s.ents q) p (some e)), pmu := upd s.pmu q none,
+                     thr := upd s.thr t (.openGap q p e) }, .tau)
+  | _ => step s t
 
 inductive Act where
   | call (t : Tid) (c : Call)
@@ -165,6 +193,16 @@ def run (s : State) : List Act → State
   | a :: as => run (apply s a) as
 
 def enabled (s : State) (t : Tid) : Bool := (step s t).isSome
+
+def applyEarly (s : State) : Act → State
+  | .call t c => if s.thr t = .idle then { s with thr := upd s.thr t c.entry } else s
+  | .step t => match stepEarly s t with
+    | some (s', _) => s'
+    | none => s
+
+def runEarly (s : State) : List Act → State
+  | [] => s
+  | a :: as => runEarly (applyEarly s a) as
 
 /-! ### macro steps for the driver -/
 
@@ -196,9 +234,13 @@ def release (fuel : Nat) (s : State) (t : Tid) : State × Macro :=
   | none => (s, .blocked)
   | some (s', e) => advance fuel s' t e
 
+/-- Endpoints among `0..n-1` that are not closed. -/
+def openBelow (closed : Eid → Bool) : Nat → Nat
+  | 0 => 0
+  | n + 1 => openBelow closed n + (if closed n then 0 else 1)
+
 /-- Number of endpoints that were created and not closed yet (each has a running pump goroutine). -/
-def openEndpoints (s : State) : Nat :=
-  ((List.range s.nep).filter (fun e => !s.closed e)).length
+def openEndpoints (s : State) : Nat := openBelow s.closed s.nep
 
 /-- Number of entries of port `q` among the processes `0..n-1`. -/
 def size (s : State) (q : Port) (n : Nat) : Nat :=
